@@ -42,4 +42,9 @@ theorem C02_zero_tests_from_source :
     ∧ (∀ v, Gen.bindata.isZero v = (WVal.bin v).isZero) ∧ (∀ v, Gen.vbint.isZero v = (WVal.vb v).isZero) :=
   Tie.Wire.isZero_eq
 
+/-- every `fillProp` of the wire layer returns 0 for the zero value and otherwise `i - n`, the bytes it wrote -/
+theorem C02_fillProp_result_from_source :
+    Gen.fillPropTails.length = 7 ∧ Gen.fillPropTails.all (fun e => e.2 == (0, true)) = true :=
+  Tie.Wire.fillProp_tails
+
 end Mq
